@@ -616,6 +616,12 @@ fn raw_decode(env: &mut Env, t: T, p: u64, input: &[u8]) -> Raw {
             let texts = if input.len() <= 256 { Some((bs58::encode(input).into_string(), String::from_utf8_lossy(input).into_owned())) } else { None };
             measured(move || {
                 let bytes = PeerId::from_bytes(input).ok();
+                // what the library itself does with a peer id it decoded from the network: append it
+                // to an address (address book, routing table), print it, re-encode it
+                if let Some(p) = &bytes {
+                    let a = multiaddr::Multiaddr::empty().with(multiaddr::Protocol::P2p((*p).into()));
+                    let _ = (a.len(), p.to_base58().len(), p.to_bytes().len());
+                }
                 let (text, lossy) = match &texts {
                     Some((b58, lossy)) => (PeerId::from_str(b58).ok(), PeerId::from_str(lossy).is_ok()),
                     None => (None, false),
@@ -1904,6 +1910,13 @@ fn maybe_valid_peer_id(rng: &mut Rng) -> Vec<u8> {
             rng.bytes(n)
         }
         2 => vec![0x00, 0x2b, 1, 2, 3], // identity, declared 43
+        3 => {
+            // well-formed identity multihash with a digest of 40..=66 bytes (42 is the largest a peer id may carry)
+            let n = rng.range(40, 66);
+            let mut v = vec![0x00, n as u8];
+            v.extend(rng.bytes(n));
+            v
+        }
         _ => gen_peer_id(rng).to_bytes(),
     }
 }
@@ -3608,7 +3621,13 @@ pub fn run(ctx: &Ctx) -> Report {
                 if !miri {
                     start_watchdog(ctx);
                 }
-                runner.replay(&r);
+                if r["target"] == "noise-window-alignment" {
+                    // the whole (small) family is re-run: 144 sessions
+                    let c = Ctx { shard: 0, nshards: 1, ..ctx.clone() };
+                    crate::c02::window_alignment_panics(&c, &mut runner.rep, "C19");
+                } else {
+                    runner.replay(&r);
+                }
             }
             None => runner.rep.inconclusive("unreadable replay file"),
         }
@@ -3732,6 +3751,10 @@ pub fn run(ctx: &Ctx) -> Report {
         runner.rep.violation(format!("C19/panic/stray/{}", site_of(&p)), p, json!({"target": "stray"}));
     }
     let mut rep = runner.rep;
+    // the Noise transport's frame-length handling at the edge of its read-ahead window (shared
+    // with C02, where stream equality is judged; here only panics)
+    let n = crate::c02::window_alignment_panics(ctx, &mut rep, "C19");
+    rep.count("noise_window_alignment_sessions", n as u64);
     rep.extra.insert(
         "max_alloc_bytes_per_input_byte_for_inputs_of_4KiB_or_more".into(),
         json!(runner.max_ratio.iter().map(|(k, v)| (k.to_string(), json!((v * 10.0).round() / 10.0))).collect::<serde_json::Map<String, Value>>()),
@@ -3757,6 +3780,7 @@ pub fn run(ctx: &Ctx) -> Report {
     }
     rep.floor(&format!("in_{ST_BSWIRE}"), 8);
     rep.floor(&format!("rt_{ST_BSWIRE}"), 8);
+    rep.floor("noise_window_alignment_sessions", 100);
     for k in ["valid", "truncate", "bitflip", "varint", "varint-any", "splice", "bomb", "huge-len", "semivalid", "noise"] {
         rep.floor(&format!("kind_{k}"), 200);
     }
